@@ -18,7 +18,8 @@ def finding_key(ob: Ob) -> str:
 
 def run_prop(prop: str, what: str, tier: str, seed: int, log, opts=None, key_of=None, only=None) -> List[Ob]:
     t0 = time.time()
-    indices = [i for i in range(len(fam.VALID)) if only is None or only(fam.VALID[i])]
+    pool = fam.VALID if tier == 'quick' else fam.ALL_CASES      # ALL_CASES starts with VALID
+    indices = [i for i in range(len(pool)) if only is None or only(pool[i])]
     results = ssrun.run_family(what, indices, opts or {})
     obs: List[Ob] = []
     # ---- trusted-base validation: machine vs compiled program on sampled programs
@@ -130,7 +131,7 @@ def write_replay(prop: str, what: str, label: str, finding: Dict, key: str) -> s
     import hashlib
     rdir = os.path.join(os.path.dirname(os.path.dirname(os.path.abspath(__file__))), 'replays', prop)
     os.makedirs(rdir, exist_ok=True)
-    idx = next(i for i, (c, _pc) in enumerate(fam.VALID) if c.label == label)
+    idx = next(i for i, (c, _pc) in enumerate(fam.ALL_CASES) if c.label == label)
     name = hashlib.sha1((label + key).encode()).hexdigest()[:12]
     path = os.path.join(rdir, f'ss_{name}.json')
     with open(path, 'w', encoding='utf-8') as fh:
@@ -143,7 +144,7 @@ def write_replay(prop: str, what: str, label: str, finding: Dict, key: str) -> s
 def replay_custom(rec: Dict):
     """(ok, info): ok False = the property still fails on the compiled program for this record."""
     label = rec.get('program')
-    idx = next((i for i, (c, _pc) in enumerate(fam.VALID) if c.label == label), rec.get('idx'))
+    idx = next((i for i, (c, _pc) in enumerate(fam.ALL_CASES) if c.label == label), rec.get('idx'))
     rp = ssrun.replay_finding((idx, rec['scenario'], rec['finding']))
     if rp['reproduced'] is True:
         return False, rp['detail']
